@@ -36,8 +36,11 @@ func (r expressionResult) firstValue() string {
 // The prefix makes sure user-defined names can never collide with names the converters or the
 // shell use themselves (e.g. _h0, _rv0, _dvc, PATH, IFS, echo, done).
 func userName(name string) string {
-	return "u_" + name
+	return UserNamePrefix + name
 }
+
+// UserNamePrefix is the prefix of every user-defined name which is passed to a converter.
+const UserNamePrefix = "u_"
 
 func BoolToString(b bool) string {
 	if b {
